@@ -177,6 +177,12 @@ def python_src(f, v, ctx):
 
 
 def replay(obj):
+    if obj.get("stream") == "enum-mixin":
+        from harness import c02ext
+        return c02ext.replay_enum(obj)
+    if obj.get("stream") == "classfield":
+        from harness import c02ext
+        return c02ext.replay_class(obj)
     ctx = S.Context()
     f, v = obj["field"], obj["value"]
     obs = run_cases([(f, v)], ctx)[0]
@@ -273,7 +279,7 @@ def run(rep, tier, pid="C02", prop_file="C02"):
     n = 2400 if tier == "quick" else 30000
     max_depth = 2 if tier == "quick" else 3
     proofs_ok, model_ok = core.standard_proof_obligations(
-        rep, prop_file, ["theories/Check/Fieldchk.vo"])
+        rep, prop_file, ["theories/Check/Fieldchk.vo"] + (["theories/Check/C02xchk.vo"] if pid == "C02" else []))
     ctx = S.Context()
     lat = lattice_cases()
     rep.cov["streams"]["lattice"] = {"evaluations": len(lat)}
@@ -334,6 +340,11 @@ def run(rep, tier, pid="C02", prop_file="C02"):
                            "model (Fields/SetChain.v) and typedpy differ on %d generated cases; the documented rules "
                            "hold on every explored input" % len(r["mismatch"]),
                            {"field": f, "value": v, "observed": observed[i], "python": python_src(f, v, ctx)})
+    if pid == "C02":
+        # Enum fields over mix-in enum classes; fields over arbitrary classes (history of declarations)
+        from harness import c02ext
+        c02ext.run_enum_stream(rep, tier, model_ok)
+        c02ext.run_class_stream(rep, tier, model_ok)
     if not proofs_ok:
         from harness.props.c17 import broken_build
         broken_build(rep)
